@@ -268,6 +268,7 @@ def c06(A, ctx, tier):
                "for all shapes with the risk-set recursions as opaque operators; the recursions "
                "themselves are decided on six fixed tie / censoring patterns of 3-5 observations "
                "(symbolic linear predictor), not for every pattern")
+    domain.r_piecewise_cont(A, ctx, dict(floor=5))
     return dict(explanation="every datafit accessor is lifted to a rational-function normal "
                 "form over (X, y, Xw, hyper-parameters): sibling accessors (dense, CSC, scalar, "
                 "full, X_j.raw_grad) are equal terms, raw_grad / raw_hessian / coordinate "
@@ -369,6 +370,7 @@ def c14(A, ctx, tier):
     misc.r_abseps(A, ctx, dict(floor=300))
     ctx.assume("limit reductions (gamma -> inf, delta -> inf), SLOPE vs L1, Gram vs CD are not decided")
     misc.r_lazyread(A, ctx, dict(floor=20))
+    feasible.r_pos(A, ctx, dict(floor=8), rule="R-POS-PROX", parts=("prox",))
     return dict(explanation="method-by-method equality of lifted terms under the substitution "
                 "that makes the general component coincide with the special one (weights := 1, "
                 "l1_ratio := 1, sample_weights := 1, group accessor at one feature); every "
@@ -387,6 +389,7 @@ def c15(A, ctx, tier):
                "the necessary condition that no subscript mixes a working-set position, a "
                "feature, a group, a task or a sample index, and that group specifications keep "
                "the caller's order")
+    misc.r_wssize(A, ctx, dict(floor=4))
     return dict(explanation="index-kind inference over all kernels, datafits and penalties: "
                 "every typed subscript uses an index of the axis' own domain; the coordinate "
                 "handed to a prox is a feature/group, never a position; grp_converter preserves "
